@@ -53,10 +53,17 @@ type Spec struct {
 	Extra    int    `json:"extra"`
 	Loc      int    `json:"loc"`
 	CEOnly   bool   `json:"ce_only,omitempty"` // bodiless response that still carries Content-Encoding: gzip
+	// ForMethod is the method of the request a response answers ("" = GET). A response to HEAD carries the
+	// framing headers of its Framing/Size but no body bytes.
+	ForMethod string `json:"for_method,omitempty"`
 }
 
 func (s Spec) String() string {
-	return fmt.Sprintf("%s/%s %s%s%d v%s size=%d %s/%s tr=%d enc=%s ct=%s q=%d ck=%d x=%d loc=%d", s.Space, s.Kind, s.Method, map[bool]string{true: " ", false: ""}[s.Method != ""], s.Status, s.Version, s.Size, s.Framing, s.Chunking, s.Trailers, s.Enc, s.CT, s.Query, s.Cookies, s.Extra, s.Loc)
+	str := fmt.Sprintf("%s/%s %s%s%d v%s size=%d %s/%s tr=%d enc=%s ct=%s q=%d ck=%d x=%d loc=%d", s.Space, s.Kind, s.Method, map[bool]string{true: " ", false: ""}[s.Method != ""], s.Status, s.Version, s.Size, s.Framing, s.Chunking, s.Trailers, s.Enc, s.CT, s.Query, s.Cookies, s.Extra, s.Loc)
+	if s.ForMethod != "" {
+		str += " for=" + s.ForMethod
+	}
+	return str
 }
 
 // Msg is a built message with its ground truth.
@@ -85,6 +92,13 @@ type Msg struct {
 	Location    string
 	NonTrivial  bool // non-empty body and (chunked or content-coded or trailers or close-delimited)
 	BodyAllowed bool
+	// BodyOmitted: the framing headers announce a body (Content-Length: n / chunked) that the message does not
+	// carry because of its status (304) or because it answers a HEAD request.
+	BodyOmitted bool
+	// Partial: 206 Partial Content - the body is a fragment, "fully decoded" is not defined for it.
+	Partial bool
+	// ForMethod is the method of the request this response answers ("GET" unless the Spec says otherwise).
+	ForMethod string
 }
 
 // ---------------------------------------------------------------------------------------------------------
@@ -94,6 +108,11 @@ var (
 	// Sizes per tier (identity payload sizes).
 	SizesQuick    = []int{0, 1, 4096, 65537}
 	SizesThorough = []int{0, 1, 2, 4095, 4096, 4097, 32768, 65536, 65537, 1 << 20}
+	// SizesWide: every size class of SizesThorough below 1 MiB plus the buffer constants of the code the body
+	// passes through (io.ReadAll / bytes.Buffer start at 512 bytes, bufio at 4096, io.Copy at 32 KiB), each
+	// with a value below, at and above it.
+	SizesWide         = []int{0, 1, 2, 511, 512, 513, 4095, 4096, 4097, 32767, 32768, 32769, 65536, 65537}
+	SizesWideThorough = []int{0, 1, 2, 511, 512, 513, 4095, 4096, 4097, 32767, 32768, 32769, 65536, 65537, 1 << 20}
 
 	ChunkingsQuick    = []string{"whole", "first1", "fixed1000"}
 	ChunkingsThorough = []string{"whole", "first1", "fixed1000", "fixed4096", "fixed7"}
@@ -105,8 +124,10 @@ var (
 
 	TrailerPool = []KV{{"X-T1", "v1"}, {"X-T2", "second value"}}
 
-	QueryRaw   = []string{"", "a=1", "x=1&y=%20z%26&x=3&empty=", "q=a+b&%D0%BA=%D0%B2"}
-	QueryTruth = [][]KV{nil, {{"a", "1"}}, {{"x", "1"}, {"y", " z&"}, {"x", "3"}, {"empty", ""}}, {{"q", "a b"}, {"к", "в"}}}
+	// entries 0..3 are enumerated by HeaderSpace; entry 4 (a percent-encoded value that is not UTF-8) by EdgeSpace
+	QueryRaw   = []string{"", "a=1", "x=1&y=%20z%26&x=3&empty=", "q=a+b&%D0%BA=%D0%B2", "b=%FF%FE&ok=1"}
+	QueryTruth = [][]KV{nil, {{"a", "1"}}, {{"x", "1"}, {"y", " z&"}, {"x", "3"}, {"empty", ""}}, {{"q", "a b"}, {"к", "в"}}, {{"b", "\xff\xfe"}, {"ok", "1"}}}
+	headerSpaceQueries = 4
 
 	ReqCookieHeaders = [][]string{nil, {"a=1"}, {"a=1; b=two"}, {"a=1", "b=2"}}
 	ReqCookieTruth   = [][]Cookie{nil, {{Name: "a", Value: "1"}}, {{Name: "a", Value: "1"}, {Name: "b", Value: "two"}}, {{Name: "a", Value: "1"}, {Name: "b", Value: "2"}}}
@@ -120,7 +141,10 @@ var (
 
 	ExtraHeaders = [][]KV{nil, {{"X-Multi", "a"}, {"X-Multi", "b"}, {"X-Empty", ""}},
 		// repeated fields whose values are not in ascending order (the order of the lines is part of the message)
-		{{"X-Multi", "zeta"}, {"X-Multi", "alpha"}, {"Via", "1.1 second"}, {"Via", "1.0 first"}, {"Accept-Language", "fr;q=0.9"}, {"Accept-Language", "en"}}}
+		{{"X-Multi", "zeta"}, {"X-Multi", "alpha"}, {"Via", "1.1 second"}, {"Via", "1.0 first"}, {"Accept-Language", "fr;q=0.9"}, {"Accept-Language", "en"}},
+		// entry 3 (EdgeSpace only): a field value with obs-text bytes that are not UTF-8 (RFC 7230 section 3.2.6)
+		{{"X-Bin", "caf\xe9 \xff"}}}
+	headerSpaceExtras = 3
 
 	Locations = []string{"http://example.com/new?x=1", "/login"}
 
@@ -128,18 +152,20 @@ var (
 		"P1": {{"a", "1"}},
 		"P2": {{"x", "1"}, {"y", " z&="}, {"x", "3"}, {"empty", ""}},
 		"P3": {{"bin", "\xff\xfe"}, {"ключ", "значение"}},
+		"P4": {{"n\xffme", "v"}, {"k", "w"}}, // a parameter NAME that is not UTF-8
 	}
 	partSets = map[string][]Part{
 		"M1": {{Name: "a", Value: "1"}},
 		"M2": {{Name: "note", Value: "hello world"}, {Name: "f", Filename: "a.txt", ContentType: "text/plain", Value: "line1\r\nline2"}},
 		"M3": {{Name: "blob", Filename: "b.bin", ContentType: "application/octet-stream", Value: "\xff\xfe\x00\x80binary\xc3"}, {Name: "k", Value: "v"}},
+		"M4": {{Name: "empty", Value: ""}, {Name: "typed", ContentType: "application/json", Value: "{}"}}, // empty value; typed part without a file name
 	}
 )
 
 // Boundary is the multipart boundary of every generated multipart body.
 const Boundary = "XbOuNdArYx"
 
-var statusReason = map[int]string{200: "OK", 201: "Created", 204: "No Content", 301: "Moved Permanently", 302: "Found", 304: "Not Modified", 404: "Not Found",
+var statusReason = map[int]string{200: "OK", 201: "Created", 204: "No Content", 206: "Partial Content", 301: "Moved Permanently", 302: "Found", 304: "Not Modified", 404: "Not Found",
 	300: "Multiple Choices", 303: "See Other", 307: "Temporary Redirect", 308: "Permanent Redirect"}
 
 // ---------------------------------------------------------------------------------------------------------
@@ -152,6 +178,11 @@ func BodySpace(tier string) []Spec {
 	if tier == "thorough" {
 		sizes, chunkings = SizesThorough, ChunkingsThorough
 	}
+	return BodySpaceOf(sizes, chunkings)
+}
+
+// BodySpaceOf is BodySpace over explicit size and chunking pools.
+func BodySpaceOf(sizes []int, chunkings []string) []Spec {
 	var out []Spec
 	for _, kind := range []string{"request", "response"} {
 		cts := RequestCTs
@@ -203,13 +234,13 @@ func HeaderSpace(tier string) []Spec {
 	var out []Spec
 	nq := 3
 	if tier == "thorough" {
-		nq = len(QueryRaw)
+		nq = headerSpaceQueries
 	}
 	for _, method := range []string{"GET", "POST", "PUT"} {
 		for _, ver := range []string{"1.1", "1.0"} {
 			for q := 0; q < nq; q++ {
 				for ck := range ReqCookieHeaders {
-					for x := range ExtraHeaders {
+					for x := 0; x < headerSpaceExtras; x++ {
 						type fr struct {
 							framing string
 							size    int
@@ -241,7 +272,7 @@ func HeaderSpace(tier string) []Spec {
 	for _, status := range []int{200, 201, 301, 302, 404, 204, 304, 300, 303, 307, 308} {
 		for _, ver := range []string{"1.1", "1.0"} {
 			for ck := range ResCookieHeaders {
-				for x := range ExtraHeaders {
+				for x := 0; x < headerSpaceExtras; x++ {
 					locs := []int{0}
 					if status == 301 || status == 302 {
 						locs = []int{0, 1}
@@ -280,6 +311,122 @@ func HeaderSpace(tier string) []Spec {
 					}
 				}
 			}
+		}
+	}
+	return out
+}
+
+// EdgeSpace enumerates the dimensions that BodySpace and HeaderSpace hold at one value: request methods other
+// than POST that carry a body; content types that are absent, carry parameters, are spelled in upper case,
+// quote or lack the multipart boundary, do not parse as a media type, or announce a form that does not parse;
+// bytes that are not UTF-8 outside the body (query value, header value, form parameter name); responses whose
+// status (206, 304) or request method (HEAD) changes what the framing headers mean; a Location header on a
+// response that is not a redirect. The tiers differ in the body sizes only.
+func EdgeSpace(tier string) []Spec {
+	var out []Spec
+	type fr struct {
+		framing, chunking string
+		trailers          int
+	}
+	reqFramings := []fr{{"cl", "", 0}, {"chunked", "first1", 0}, {"chunked", "whole", 1}}
+	sizes := []int{0, 300}
+	if tier == "thorough" {
+		sizes = []int{0, 1, 300, 5000}
+	}
+	// request methods with a body
+	for _, method := range []string{"GET", "DELETE", "PATCH", "OPTIONS", "PUT"} {
+		for _, f := range reqFramings {
+			for _, ct := range []string{"json", "form:P2"} {
+				for _, enc := range []string{"none", "gzip"} {
+					out = append(out, Spec{Space: "edge", Kind: "request", Method: method, Version: "1.1", Size: 300, Framing: f.framing, Chunking: f.chunking, Trailers: f.trailers, Enc: enc, CT: ct, Query: 1})
+				}
+			}
+		}
+	}
+	// content-type spellings (requests: all; responses: those that matter for capture options and decoding)
+	reqCTs := []string{"none", "text-badct", "form-params:P2", "form-upper:P2", "form:P4", "form-bad", "multipart-quoted:M2", "multipart-noboundary:M1", "multipart:M4"}
+	resCTs := []string{"none", "text-badct", "form-params:P2", "multipart-quoted:M2"}
+	for _, kind := range []string{"request", "response"} {
+		cts, framings := reqCTs, reqFramings
+		if kind == "response" {
+			cts, framings = resCTs, append(append([]fr{}, reqFramings...), fr{"close", "", 0})
+		}
+		for _, ct := range cts {
+			for _, f := range framings {
+				for _, enc := range []string{"none", "gzip", "deflate-zlib", "br"} {
+					for _, size := range sizes {
+						s := Spec{Space: "edge", Kind: kind, Version: "1.1", Size: size, Framing: f.framing, Chunking: f.chunking, Trailers: f.trailers, Enc: enc, CT: ct}
+						if kind == "request" {
+							s.Method, s.Query = "POST", 1
+						} else {
+							s.Status = 200
+						}
+						out = append(out, s)
+					}
+				}
+			}
+		}
+	}
+	// bytes that are not UTF-8 outside the body
+	for _, f := range []fr{{"none", "", 0}, {"cl", "", 0}, {"chunked", "whole", 1}} {
+		for _, q := range []int{1, 4} {
+			for _, x := range []int{0, 3} {
+				if q == 1 && x == 0 {
+					continue
+				}
+				s := Spec{Space: "edge", Kind: "request", Method: "POST", Version: "1.1", Size: 5, Framing: f.framing, Chunking: f.chunking, Trailers: f.trailers, Enc: "none", CT: "text", Query: q, Extra: x, Cookies: 1}
+				if f.framing == "none" {
+					s.Method, s.CT, s.Size = "GET", "none", 0
+				}
+				out = append(out, s)
+			}
+		}
+		if f.framing != "none" {
+			out = append(out, Spec{Space: "edge", Kind: "response", Status: 200, Version: "1.1", Size: 5, Framing: f.framing, Chunking: f.chunking, Trailers: f.trailers, Enc: "none", CT: "text", Extra: 3, Cookies: 1})
+		}
+	}
+	// 206 Partial Content: a fragment of a (possibly content-coded) representation
+	for _, f := range []fr{{"cl", "", 0}, {"chunked", "first1", 0}, {"chunked", "whole", 2}, {"close", "", 0}} {
+		for _, enc := range []string{"none", "gzip", "deflate"} {
+			for _, size := range sizes {
+				for _, ct := range []string{"text", "binary"} {
+					out = append(out, Spec{Space: "edge", Kind: "response", Status: 206, Version: "1.1", Size: size, Framing: f.framing, Chunking: f.chunking, Trailers: f.trailers, Enc: enc, CT: ct})
+				}
+			}
+		}
+	}
+	// framing headers without a body: 304 Not Modified and answers to HEAD
+	for _, f := range []fr{{"cl", "", 0}, {"chunked", "whole", 0}, {"none", "", 0}} {
+		for _, enc := range []string{"none", "gzip"} {
+			for _, size := range sizes {
+				if size == 1 {
+					continue
+				}
+				for _, ver := range []string{"1.1", "1.0"} {
+					if ver == "1.0" && f.framing == "chunked" {
+						continue
+					}
+					if f.framing != "none" {
+						out = append(out, Spec{Space: "edge", Kind: "response", Status: 304, Version: ver, Size: size, Framing: f.framing, Chunking: f.chunking, Enc: enc, CT: "text", Cookies: 1})
+					}
+					for _, status := range []int{200, 404, 301} {
+						s := Spec{Space: "edge", Kind: "response", Status: status, Version: ver, Size: size, Framing: f.framing, Chunking: f.chunking, Enc: enc, CT: "text", ForMethod: "HEAD", Cookies: 1}
+						if f.framing == "none" {
+							if enc != "none" || size != 0 {
+								continue
+							}
+							s.CT = "none"
+						}
+						out = append(out, s)
+					}
+				}
+			}
+		}
+	}
+	// Location on a response that is not a redirect
+	for _, status := range []int{200, 201, 404} {
+		for _, f := range []fr{{"cl", "", 0}, {"chunked", "whole", 0}} {
+			out = append(out, Spec{Space: "edge", Kind: "response", Status: status, Version: "1.1", Size: 5, Framing: f.framing, Chunking: f.chunking, Enc: "none", CT: "text", Loc: 1})
 		}
 	}
 	return out
@@ -374,16 +521,22 @@ func makeContent(ct string, n int) *content {
 		return c
 	}
 	c = &content{}
+	kind, set := CTKind(ct)
+	isForm := kind == "form" || kind == "form-params" || kind == "form-upper"
+	isMultipart := kind == "multipart" || kind == "multipart-quoted" || kind == "multipart-noboundary"
 	switch {
 	case n == 0:
 		c.payload = []byte{}
-		if strings.HasPrefix(ct, "form:") {
+		if isForm {
 			c.form = []KV{}
 		}
-		if strings.HasPrefix(ct, "multipart:") {
+		if isMultipart {
 			c.parts = []Part{}
 		}
-	case ct == "text" || ct == "text-mixedcase" || ct == "none":
+	case ct == "form-bad":
+		// not parseable as application/x-www-form-urlencoded (invalid escape): no parameter list exists
+		c.payload = []byte("a=%zz&b=1")
+	case ct == "text" || ct == "text-mixedcase" || ct == "none" || ct == "text-badct":
 		c.payload = asciiFill(n, 1)
 	case ct == "json":
 		if n < 9 {
@@ -394,8 +547,8 @@ func makeContent(ct string, n int) *content {
 	case ct == "binary":
 		c.payload = lcg(n, 3)
 		copy(c.payload, []byte{0xff, 0xfe, 0x00, 0x80, 0xc3})
-	case strings.HasPrefix(ct, "form:"):
-		kvs := append([]KV(nil), formSets[strings.TrimPrefix(ct, "form:")]...)
+	case isForm:
+		kvs := append([]KV(nil), formSets[set]...)
 		base := formEncode(kvs)
 		switch {
 		case n >= len(base)+5:
@@ -413,8 +566,8 @@ func makeContent(ct string, n int) *content {
 			c.payload = []byte(formEncode(kvs))
 		}
 		c.form = kvs
-	case strings.HasPrefix(ct, "multipart:"):
-		parts := append([]Part(nil), partSets[strings.TrimPrefix(ct, "multipart:")]...)
+	case isMultipart:
+		parts := append([]Part(nil), partSets[set]...)
 		base := len(multipartEncode(parts))
 		padOverhead := len(multipartEncode(append(append([]Part(nil), parts...), Part{Name: "pad"}))) - base
 		if n >= base+padOverhead {
@@ -429,6 +582,14 @@ func makeContent(ct string, n int) *content {
 	contentMap[key] = c
 	cacheMu.Unlock()
 	return c
+}
+
+// CTKind splits a content-type class "kind:set" into its parts ("text" -> "text", "").
+func CTKind(ct string) (kind, set string) {
+	if i := strings.IndexByte(ct, ':'); i >= 0 {
+		return ct[:i], ct[i+1:]
+	}
+	return ct, ""
 }
 
 func encodedBody(ct string, n int, enc string) *encoded {
@@ -559,10 +720,24 @@ func contentTypeHeader(ct string) string {
 		return "application/json"
 	case ct == "binary":
 		return "application/octet-stream"
-	case strings.HasPrefix(ct, "form:"):
+	case ct == "text-badct":
+		return "text/plain; charset" // a parameter without a value: not a parseable media type
+	case ct == "form-bad":
 		return "application/x-www-form-urlencoded"
-	case strings.HasPrefix(ct, "multipart:"):
+	}
+	switch kind, _ := CTKind(ct); kind {
+	case "form":
+		return "application/x-www-form-urlencoded"
+	case "form-params":
+		return "application/x-www-form-urlencoded; charset=UTF-8"
+	case "form-upper":
+		return "Application/X-WWW-Form-URLEncoded"
+	case "multipart":
 		return "multipart/form-data; boundary=" + Boundary
+	case "multipart-quoted":
+		return "multipart/form-data; boundary=\"" + Boundary + "\""
+	case "multipart-noboundary":
+		return "multipart/form-data"
 	}
 	panic("unknown ct " + ct)
 }
@@ -583,10 +758,19 @@ func declaredCE(enc string) string {
 func Build(s Spec) *Msg {
 	m := &Msg{Spec: s, Proto: "HTTP/" + s.Version, Host: "example.com"}
 	e := encodedBody(s.CT, s.Size, s.Enc)
-	m.BodyAllowed = s.Framing != "none"
+	m.ForMethod = s.ForMethod
+	if m.ForMethod == "" {
+		m.ForMethod = "GET"
+	}
+	m.BodyOmitted = s.Kind == "response" && s.Framing != "none" && (s.ForMethod == "HEAD" || s.Status == 304)
+	m.Partial = s.Status == 206
+	m.BodyAllowed = s.Framing != "none" && !m.BodyOmitted
 	if m.BodyAllowed {
 		m.Payload, m.Encoded, m.Decodable, m.Corrupt = e.payload, e.encoded, e.decodable, e.corrupt
 		m.Form, m.Parts = e.form, e.parts
+		if kind, _ := CTKind(s.CT); kind == "multipart-noboundary" {
+			m.Parts = nil // without a boundary parameter the body cannot be split into parts
+		}
 	} else {
 		m.Payload, m.Encoded, m.Decodable = []byte{}, []byte{}, true
 	}
@@ -619,6 +803,9 @@ func Build(s Spec) *Msg {
 		if s.Status >= 300 && s.Status < 400 && s.Status != 304 {
 			m.Location = Locations[s.Loc]
 			add("Location", m.Location)
+		} else if s.Loc > 0 {
+			// a Location header on a response that is not a redirect (201 Created): no redirect URL
+			add("Location", Locations[s.Loc])
 		}
 	}
 	if ct := contentTypeHeader(s.CT); ct != "" {
@@ -637,11 +824,11 @@ func Build(s Spec) *Msg {
 	}
 	switch s.Framing {
 	case "cl":
-		add("Content-Length", strconv.Itoa(len(m.Encoded)))
+		add("Content-Length", strconv.Itoa(len(m.Encoded)+map[bool]int{true: len(e.encoded)}[m.BodyOmitted]))
 	case "chunked":
 		add("Transfer-Encoding", "chunked")
 		m.Chunks = chunkList(len(m.Encoded), s.Chunking)
-		if s.Trailers > 0 {
+		if s.Trailers > 0 && !m.BodyOmitted {
 			var names []string
 			for _, kv := range TrailerPool[:s.Trailers] {
 				names = append(names, kv.Name)
@@ -654,10 +841,11 @@ func Build(s Spec) *Msg {
 		w.WriteString(kv.Name + ": " + kv.Value + "\r\n")
 	}
 	w.WriteString("\r\n")
-	switch s.Framing {
-	case "cl", "close":
+	switch {
+	case m.BodyOmitted:
+	case s.Framing == "cl" || s.Framing == "close":
 		w.Write(m.Encoded)
-	case "chunked":
+	case s.Framing == "chunked":
 		off := 0
 		for _, c := range m.Chunks {
 			fmt.Fprintf(&w, "%x\r\n", c)
@@ -681,14 +869,26 @@ func Build(s Spec) *Msg {
 
 const stdRequestWire = "GET http://example.com/std HTTP/1.1\r\nHost: example.com\r\nUser-Agent: msggen/1\r\n\r\n"
 
-// StdRequest is a fresh plain GET request (the request of every generated response).
+// StdRequest is a fresh plain GET request (the request of every generated response that does not name
+// another method).
 func StdRequest() *http.Request {
-	req, err := http.ReadRequest(bufio.NewReader(strings.NewReader(stdRequestWire)))
+	return StdRequestFor("GET")
+}
+
+// StdRequestFor is StdRequest with another method ("" = GET).
+func StdRequestFor(method string) *http.Request {
+	if method == "" {
+		method = "GET"
+	}
+	req, err := http.ReadRequest(bufio.NewReader(strings.NewReader(method + stdRequestWire[3:])))
 	if err != nil {
 		panic(err)
 	}
 	return req
 }
+
+// Request returns a fresh request of the kind this response message answers.
+func (m *Msg) Request() *http.Request { return StdRequestFor(m.ForMethod) }
 
 // StdResponseWire is a plain 200 response used as the counterpart of generated requests.
 const StdResponseWire = "HTTP/1.1 200 OK\r\nContent-Type: text/plain\r\nContent-Length: 2\r\n\r\nok"
@@ -715,7 +915,13 @@ type Serialized struct {
 }
 
 // Decompose splits serialised message bytes into head, de-chunked payload and trailer section.
-func Decompose(b []byte) Serialized {
+func Decompose(b []byte) Serialized { return decompose(b, false) }
+
+// DecomposeBodiless is Decompose for a message that carries no body whatever its framing headers say (a 1xx,
+// 204 or 304 response, the answer to a HEAD request): everything after the head is returned as Payload.
+func DecomposeBodiless(b []byte) Serialized { return decompose(b, true) }
+
+func decompose(b []byte, bodiless bool) Serialized {
 	var s Serialized
 	i := bytes.Index(b, []byte("\r\n\r\n"))
 	if i < 0 {
@@ -738,11 +944,13 @@ func Decompose(b []byte) Serialized {
 			s.Framing = "cl"
 		}
 	}
-	if !chunked {
+	if chunked {
+		s.Framing = "chunked"
+	}
+	if !chunked || bodiless {
 		s.Payload = rest
 		return s
 	}
-	s.Framing = "chunked"
 	for {
 		j := bytes.Index(rest, []byte("\r\n"))
 		if j < 0 {
